@@ -1,25 +1,18 @@
 use slotted_egraphs::*;
 use verif_harness::langs::A;
 fn main() {
-    let start: RecExpr<A> = RecExpr::parse(&std::env::var("START").unwrap()).unwrap();
-    let mut eg: EGraph<A> = EGraph::with_subst_method::<ExtractionSubst>(());
-    eg.add_expr(start);
-    let sel: Vec<usize> = std::env::args().skip(1).map(|x| x.parse().unwrap()).collect();
-    let all: Vec<(&str, &str, &str)> = vec![
-        ("let-subst", "(let $1 ?a ?c)", "?a[(var $1) := ?c]"),
-        ("distr", "(mul ?a (add ?b ?c))", "(add (mul ?a ?b) (mul ?a ?c))"),
-        ("let-add", "(let $1 (add ?a ?b) ?c)", "(add (let $1 ?a ?c) (let $1 ?b ?c))"),
-        ("let-sum", "(let $1 (sum $2 ?a) ?c)", "(sum $2 (let $1 ?a ?c))"),
-        ("let-var", "(let $1 (var $1) ?c)", "?c"),
-        ("pull-in", "(mul ?a (sum $1 ?b))", "(sum $1 (mul ?a ?b))"),
-        ("sum-swap", "(sum $1 (sum $2 ?a))", "(sum $2 (sum $1 ?a))"),
-        ("mul0-var", "(mul 0 ?a)", "(mul 0 (var $3))"),
-    ];
-    let rws: Vec<Rewrite<A>> = all.iter().enumerate().filter(|(i, _)| sel.is_empty() || sel.contains(i)).map(|(_, (n, l, r))| Rewrite::new(n, l, r)).collect();
-    for i in 0..4 {
-        let ch = apply_rewrites(&mut eg, &rws);
-        println!("iter {i}: changed={ch} nodes={} classes={}", eg.total_number_of_nodes(), eg.ids().len());
-        let ex = Extractor::<A, AstSize>::new(&eg, AstSize);
-        let _ = ex;
-    }
+    // D17: b[x := x+1] where the e-graph knows (x+1)+2 = x
+    let ext = std::env::var("EXT").is_ok();
+    let mut eg: EGraph<A> = if ext { EGraph::with_subst_method::<ExtractionSubst>(()) } else { EGraph::new(()) };
+    let start: RecExpr<A> = RecExpr::parse("(sum $1 (mul (add (var $1) 2) (mul (var $1) (var $1))))").unwrap();
+    let s = eg.add_expr(start);
+    let a = eg.add_expr(RecExpr::parse("(add (add (var $1) 1) 2)").unwrap());
+    let v = eg.add_expr(RecExpr::parse("(var $1)").unwrap());
+    eg.union(&a, &v); // true mod 3
+    let rw: Rewrite<A> = Rewrite::new("sum-shift", "(sum $1 ?a)", "(sum $1 ?a[(var $1) := (add (var $1) 1)])");
+    apply_rewrites(&mut eg, &[rw]);
+    let good = lookup_rec_expr(&RecExpr::parse("(sum $1 (mul (var $1) (mul (add (var $1) 1) (add (var $1) 1))))").unwrap(), &eg);
+    let bad = lookup_rec_expr(&RecExpr::parse("(sum $1 (mul (add (var $1) 1) (mul (add (var $1) 1) (add (var $1) 1))))").unwrap(), &eg);
+    println!("correct instance represented and equal: {:?}", good.map(|g| eg.eq(&g, &s)));
+    println!("WRONG instance (x+1)^3 represented and equal: {:?}", bad.map(|g| eg.eq(&g, &s)));
 }
